@@ -382,10 +382,17 @@ def _main(a, pid, seed, t0, spec, coqdir, deps, workdir, overlay, problems, note
                    env={"VERIF_REPO": REPO, "VERIF_DIR": VERIF})
     resf = os.path.join(workdir, "result.json")
     if rc != 0 or not os.path.exists(resf):
-        log("ERROR: harness run failed rc=%s\n%s" % (rc, hout[-4000:]))
-        # a crash of the implementation inside the harness is reported as a violation when the harness says so
-        return 2
-    res = json.load(open(resf))
+        # the harness itself builds and runs cleanly on the unchanged tree, so a crash / hang here comes from the
+        # code under test (panic, deadlock, fatal error in a goroutine): reported as a violation whose replay names
+        # the crash (no concrete property-level input isolated).
+        log("harness run failed rc=%s\n%s" % (rc, hout[-3000:]))
+        problems.append(("harness", "harness %s crashed or timed out (rc=%s) while driving the implementation: %s" % (
+            spec["harness"], rc, hout[-2500:])))
+        res = {"evaluations": 0, "distinct_nontrivial": 0, "rule": "harness crashed", "samples": [], "failures": [], "notes": []}
+        for f in glob.glob(os.path.join(workdir, "cases*.v")):
+            os.remove(f)
+    else:
+        res = json.load(open(resf))
 
     # 5. model vs implementation: coqc cases*.v
     mism = []
